@@ -3342,6 +3342,10 @@ class Session(object):
 
             previous = self._pools.get(host)
             with self._lock:
+                if self.is_shutdown:
+                    # the session was shut down while this pool was being created
+                    new_pool.shutdown()
+                    return False
                 while new_pool._keyspace != self.keyspace:
                     self._lock.release()
                     set_keyspace_event = Event()
